@@ -40,7 +40,9 @@ def _v(**kw):
 
 VARIANTS = {
     "aes:armv8": _v(),
-    "aes:armv8+zeroize": _v(features=["zeroize"]),
+    # C16 harnesses for the autodetect types live INSIDE crate::autodetect (they call the private
+    # aes_intrinsics::init_get() to run CPU detection without constructing a cipher), as on the x86 build (plans/aes.py)
+    "aes:armv8+zeroize": _v(features=["zeroize"], inner=[("src/autodetect.rs", "crate::autodetect", "aes/auto_inner_arm.rs")]),
     "aes:armv8+hazmat": _v(features=["hazmat"]),
 }
 _C = ["aes/ni_model.rs", "aes/c02_arm.rs"]
@@ -50,7 +52,7 @@ PLAN = {
     "C03": [("aes:armv8", _C), ("aes:armv8+hazmat", _X)],
     "C04": [("aes:armv8", _X), ("aes:armv8+hazmat", _X)],
     "C12": [("aes:armv8", _C + ["aes/x_arm.rs"])],
-    "C16": [("aes:armv8+zeroize", _X)],
+    "C16": [("aes:armv8+zeroize", ["aes/ni_model.rs"])],   # harnesses come from the variant's inner module auto_inner_arm.rs
     "C17": [("aes:armv8+hazmat", _X)],
     "C20": [("aes:armv8", _X)],
 }
